@@ -7,6 +7,7 @@ import Driver.OMap
 import Driver.Lru
 import Driver.Blk
 import Driver.Tmo
+import Driver.Kv
 
 def main (args : List String) : IO UInt32 := do
   match args with
@@ -18,4 +19,5 @@ def main (args : List String) : IO UInt32 := do
   | ["lru"] => Drv.run DrvLru.comp
   | ["blk"] => Drv.run DrvBlk.comp
   | ["tmo"] => Drv.run DrvTmo.comp
+  | ["kv"] => Drv.run DrvKv.comp
   | _ => IO.eprintln "usage: driver <component>"; return 2
